@@ -196,7 +196,7 @@ func cmdCheck(args []string) int {
 	tGen := time.Since(t0) - tLoad
 	outDir := filepath.Join(*verif, "out", ps.ID)
 	os.RemoveAll(outDir)
-	timeout := 10
+	timeout := 20
 	if ps.TimeoutS > 0 {
 		timeout = ps.TimeoutS
 	}
